@@ -437,6 +437,7 @@ theorem build_ok (xw : Bool) (s : Str) (found : List Found) (hf : ∀ f ∈ foun
         | exact ih
         | exact inlineCodeOf_ok xw s _
         | (split <;> exact ih)
+        | (rename_i hcls _; rw [hcls] at hc; simpa [clsOk, inlineOk] using hc)
         | (rename_i hcls _; rw [hcls] at hc; exact absurd hc (by simp [clsOk]))
         | (rename_i hcls; rw [hcls] at hc; exact absurd hc (by simp [clsOk]))
 theorem builds_ok (xw : Bool) (s : Str) (found : List Found) (hf : ∀ f ∈ found, clsOk xw f.cls = true) :
